@@ -26,5 +26,10 @@ def obligations(tier: str) -> list[Ob]:
             encoded=["openapi_python_client.parser.properties:property_from_data", "openapi_python_client.parser.properties.schemas:update_schemas_with_data"],
             bounds={"bad pieces": "pool of 8 invalid schemas", "pre-state": "0-2 registered classes"},
         ),
+        harness_ob(
+            "dependants_removed_at_every_position", "C08_deps.py", tier, funcs=["dependants_are_removed"], timeout=400 if q else 1200, cpus=1,
+            encoded=["openapi_python_client.parser.properties:build_schemas", "openapi_python_client.parser.properties.union:UnionProperty.build", "openapi_python_client.parser.properties.list_property:ListProperty.build", "openapi_python_client.parser.properties.model_property:_process_properties", "openapi_python_client.parser.properties.schemas:Schemas.add_dependencies"],
+            bounds={"positions": "10 (direct, list item, union member, list of unions, inline nested object, allOf wrapper, nullable reference, additionalProperties, allOf member, array inside anyOf)", "failures": 3, "declaration orders": "all 6"},
+        ),
         Ob("replay_bad_pieces", "vlib.replay_checks:bad_pieces", {}, timeout_s=1500 if q else 6000, engine="replay", cpus=1),
     ]
